@@ -549,6 +549,21 @@ fn gen_runs(thorough: bool, r: &mut Rng, fam: &str, emit: Emit) {
             }
         }
     }
+    // maximum-size objects: every block size (1 to 10 decimal digits), both block hashes at capacity,
+    // without any run and with runs (the longest texts a type can print; round-9 seeded change: a
+    // stack buffer one byte short for the largest dual hash)
+    for k in 0..31u8 {
+        for (c, cap2) in [("S", 32usize), ("L", 64usize)] {
+            let b1: Vec<u8> = (0..64).map(|i| ((i * 5 + k as usize) % 64) as u8).collect();
+            let b2: Vec<u8> = (0..cap2).map(|i| ((i * 7 + 1) % 64) as u8).collect();
+            emit(&format!("{} {} {} {} {}", fam, c, k, hexenc(&b1), hexenc(&b2)));
+            if k % 5 == 0 || k >= 28 {
+                let mut r1 = b1.clone(); for i in 20..30 { r1[i] = 9; }
+                let mut r2 = b2.clone(); for i in (cap2 - 6)..cap2 { r2[i] = 3; }
+                emit(&format!("{} {} {} {} {}", fam, c, k, hexenc(&r1), hexenc(&r2)));
+            }
+        }
+    }
     for (c, cap2) in [("S", 32usize), ("L", 64usize)] {
         // every run length at every position (thorough), a sample otherwise
         for run in 1..=64usize {
@@ -829,6 +844,8 @@ fn gen_posarr(thorough: bool, r: &mut Rng, emit: Emit) {
                 let s = match r.below(4) { 0 => rand_norm_bh(r, 64), 1 => vec![r.below(64) as u8; r.range(0, 64) as usize], _ => rand_bh(r, 64) };
                 let mut s = s;
                 if r.chance(1, 40) { s.push(64); }
+                // longer than a position array can hold (65.., and multiples of 64 where a shift wraps)
+                if r.chance(1, 25) { let l = *r.pick(&[65usize, 66, 70, 127, 128, 129, 192, 256, 320]); let mut base = rand_norm_bh(r, 64); if base.is_empty() { base = vec![1, 2, 3]; } s = (0..l).map(|i| base[i % base.len()]).collect(); }
                 items.push(hexenc(&s));
             }
         }
@@ -1547,6 +1564,7 @@ fn gen_ops(thorough: bool, r: &mut Rng, emit: Emit) {
                 11 => {
                     let mut s = rand_bh(r, 64);
                     if r.chance(1, 20) { s.push(64); }
+                    if r.chance(1, 12) { let l = *r.pick(&[65usize, 66, 100, 128, 129, 256, 320]); let mut base = rand_norm_bh(r, 64); if base.is_empty() { base = vec![1, 2, 3]; } s = (0..l).map(|i| base[i % base.len()]).collect(); }
                     toks.push(format!("pa:{}", hexenc(&s)));
                 }
                 12 => toks.push("pac".into()),
